@@ -21,6 +21,7 @@ func profile() sim.Profile {
 	pf.MaxNodes = 6
 	pf.MaxGroups = 8
 	pf.PConstraints = 7
+	pf.PHeteroConstraints = 3
 	pf.PTopology = 6
 	pf.PSubGroups = 4
 	pf.PGang = 5
